@@ -694,8 +694,13 @@ func LoadTrace(path string) (*Trace, error) {
 	// fields added to the scenario after a trace was recorded keep their defaults
 	tr.Spec = DefaultWorldSpec()
 	tr.Spec.Pools, tr.Spec.GovMsgs = nil, nil
+	defPrices := tr.Spec.Prices
+	tr.Spec.Prices = nil // a map would be merged with the defaults: a world without some feed must stay without it
 	if err := json.Unmarshal(bz, &tr); err != nil {
 		return nil, err
+	}
+	if tr.Spec.Prices == nil {
+		tr.Spec.Prices = defPrices
 	}
 	return &tr, nil
 }
